@@ -1,9 +1,27 @@
 """C09 copies and state-level persistence (DESIGN §4 C09)."""
 from vt.props import common_spaces as cs
-CLAIM = 'copyState / serialize+deserialize round trips of the real SO(2), R^n, Time, Discrete code reproduce every state bit for bit and write only their own serialization length'
-OUT = 'StateStorage, PlannerDataStorage, PlannerData graphs (boost::serialization over iostreams is outside the encodable fragment): marker/signature/truncation rejection is NOT checked; compound/wrapper delegation (thorough)'
+CLAIM = ('Start/goal marks of a planner-data graph: real PlannerData::markStartState/markGoalState/isStartVertex/isGoalVertex/numStart/GoalVertices/getStart/GoalIndex '
+         '(real std::map lookup, std::vector, std::sort, std::binary_search) for case-split mark sequences over 3 vertices with ARBITRARY distinct vertex indices: a vertex is reported as '
+         'start/goal exactly when it was marked so, duplicates are not stored twice, non-vertices are refused. '
+         'copyState / serialize+deserialize round trips of the real SO(2), R^n, Time, Discrete code reproduce every state bit for bit and write only their own serialization length')
+OUT = 'StateStorage, PlannerDataStorage, the boost graph of PlannerData (vertices/edges/weights) (boost::serialization over iostreams is outside the encodable fragment): marker/signature/truncation rejection is NOT checked; compound/wrapper delegation (thorough)'
 ASSUMPTIONS = []
+from vt.pipeline import Query
+
+
 def queries(tier):
-    return [cs.so2('roundtrip', tier, bound='every 64-bit pattern'), cs.rv('roundtrip', tier, 1, bound='dim 1, every bit pattern', unwind=12),
+    to = 300 if tier == 'quick' else 1200
+    # std::sort's introsort loop (ranges > 16 elements) is never entered for <= 8 marks: unwound once, checked by the unwinding assertions
+    F = '_ZSt16__introsort_loopIN9__gnu_cxx17__normal_iteratorIPjSt6vectorIjSaIjEEEElNS0_5__ops15_Iter_less_iterEEvT_S9_T0_T1_'
+    us = ['%s.%d:1' % (F, i) for i in range(6)]
+    # digits (least significant first): state | 4*goal ; states 0..2 are vertices, 3 is not
+    seqs = [(1, 0x4), (1, 0x7), (2, 0x54), (2, 0x46), (2, 0x44), (3, 0x654), (3, 0x456), (3, 0x546), (3, 0x210), (3, 0x416), (3, 0x474)]
+    if tier == 'thorough': seqs += [(3, 0x465), (3, 0x645), (3, 0x564), (3, 0x102), (3, 0x021), (4, 0x4654), (4, 0x6145), (4, 0x2106)]
+    pd = [Query('plannerdata_marks[seq=%x]' % sq, 'C09_pdata.cpp', 'harness_marks', tus=['src/ompl/base/src/PlannerData.cpp'], defines={'NOPS': k, 'SEQ': sq}, unwind=5, unwindset=us, timeout=to,
+                bound='mark sequence %x (hex digit k: state | 4*goal, state 3 is not a vertex), 3 vertices with ARBITRARY distinct indices in [0,7] (every relative order)' % sq)
+          for k, sq in seqs]
+    pd.append(Query('plannerdata_marks[ops=1]', 'C09_pdata.cpp', 'harness_marks', tus=['src/ompl/base/src/PlannerData.cpp'], defines={'NOPS': 1}, unwind=5, unwindset=us, timeout=to,
+                    bound='one mark call, symbolic state and kind'))
+    return pd + [cs.so2('roundtrip', tier, bound='every 64-bit pattern'), cs.rv('roundtrip', tier, 1, bound='dim 1, every bit pattern', unwind=12),
             cs.rv('roundtrip', tier, 3, bound='dim 3, every bit pattern', unwind=30), cs.misc('misc_roundtrip', tier, bound='every bit pattern'),
             cs.compound('copy_serialize', tier, bound='3 stub components of serialization lengths 1,2,3')]
